@@ -1,0 +1,143 @@
+//go:build verif
+
+// Hooks for the C18 (finalisers and release) correspondence harness in
+// /verif, compiled only with the `verif` build tag.  The luagc package is
+// internal, so the harness reaches it through this file: a minimal luagc.Value
+// for driving a pool directly, a wrapper exposing a pool's methods with plain
+// types, access to the current context's pool of a Runtime, and the
+// deterministic Go-finaliser collector.  Nothing here is used by golua itself.
+
+package runtime
+
+import (
+	"fmt"
+
+	"github.com/arnodel/golua/runtime/internal/luagc"
+)
+
+// Mark flags (luagc.Finalize, luagc.Release).
+const (
+	VerifGCFinalize = uint8(luagc.Finalize)
+	VerifGCRelease  = uint8(luagc.Release)
+)
+
+// VerifGCObj is a minimal luagc.Value: Key() is K; Clone() makes a new object
+// with the same K whose ID is the serial number of the Clone call on the
+// owning VerifGCPool wrapper.
+type VerifGCObj struct {
+	K       int
+	ID      int
+	IsClone bool
+	owner   *VerifGCPool
+}
+
+var _ luagc.Value = (*VerifGCObj)(nil)
+
+func (o *VerifGCObj) Key() luagc.Key { return o.K }
+
+func (o *VerifGCObj) Clone() luagc.Value {
+	o.owner.clones++
+	return &VerifGCObj{K: o.K, ID: o.owner.clones, IsClone: true, owner: o.owner}
+}
+
+func (o *VerifGCObj) String() string {
+	if o.IsClone {
+		return fmt.Sprintf("c%d.%d", o.K, o.ID)
+	}
+	return fmt.Sprintf("o%d.%d", o.K, o.ID)
+}
+
+// VerifGCPool wraps a luagc.Pool.
+type VerifGCPool struct {
+	p      luagc.Pool
+	clones int
+}
+
+// VerifGCNewClonePool wraps a fresh ClonePool (the default build's pool).
+func VerifGCNewClonePool() *VerifGCPool { return &VerifGCPool{p: luagc.NewClonePool()} }
+
+// VerifGCNewUnsafePool wraps a fresh UnsafePool (the `safepool` tag's pool).
+func VerifGCNewUnsafePool() *VerifGCPool { return &VerifGCPool{p: luagc.NewUnsafePool()} }
+
+// VerifGCPoolOf wraps the pool of r's current runtime context.
+func VerifGCPoolOf(r *Runtime) *VerifGCPool { return &VerifGCPool{p: r.weakRefPool} }
+
+// VerifGCIsolating reports whether r's current context has its own pool.
+func VerifGCIsolating(r *Runtime) bool { return r.GCPolicy() == IsolateGCPolicy }
+
+// SamePool reports whether both wrappers wrap the same pool.
+func (p *VerifGCPool) SamePool(q *VerifGCPool) bool { return p.p == q.p }
+
+// IsClonePool reports whether the wrapped pool is a *luagc.ClonePool.
+func (p *VerifGCPool) IsClonePool() bool { _, ok := p.p.(*luagc.ClonePool); return ok }
+
+// NewObj makes an original (non-clone) object owned by this wrapper.
+func (p *VerifGCPool) NewObj(k, id int) *VerifGCObj {
+	return &VerifGCObj{K: k, ID: id, owner: p}
+}
+
+// Mark calls Pool.Mark.  v must be a *VerifGCObj, *Table or *UserData.
+func (p *VerifGCPool) Mark(v interface{}, flags uint8) {
+	p.p.Mark(v.(luagc.Value), luagc.MarkFlags(flags))
+}
+
+func verifGCVals(vs []luagc.Value) []interface{} {
+	out := make([]interface{}, len(vs))
+	for i, v := range vs {
+		out[i] = v
+	}
+	return out
+}
+
+func (p *VerifGCPool) ExtractPendingFinalize() []interface{} {
+	return verifGCVals(p.p.ExtractPendingFinalize())
+}
+func (p *VerifGCPool) ExtractPendingRelease() []interface{} {
+	return verifGCVals(p.p.ExtractPendingRelease())
+}
+func (p *VerifGCPool) ExtractAllMarkedFinalize() []interface{} {
+	return verifGCVals(p.p.ExtractAllMarkedFinalize())
+}
+func (p *VerifGCPool) ExtractAllMarkedRelease() []interface{} {
+	return verifGCVals(p.p.ExtractAllMarkedRelease())
+}
+
+// Dump renders the private state of a wrapped ClonePool (see
+// (*luagc.ClonePool).VerifGCDump); "" for other pools.
+func (p *VerifGCPool) Dump(show func(interface{}) string) string {
+	cp, ok := p.p.(*luagc.ClonePool)
+	if !ok {
+		return ""
+	}
+	return cp.VerifGCDump(func(v luagc.Value) string { return show(v) })
+}
+
+// VerifGCCollector is the deterministic stand-in for runtime.SetFinalizer.
+type VerifGCCollector struct{ c *luagc.VerifGCCollector }
+
+// VerifGCInstallCollector makes every pool register its Go finalisers with a
+// fresh deterministic collector instead of the Go runtime (process-wide).
+func VerifGCInstallCollector() *VerifGCCollector {
+	return &VerifGCCollector{c: luagc.VerifGCInstallCollector()}
+}
+
+// VerifGCUninstallCollector restores runtime.SetFinalizer.
+func VerifGCUninstallCollector() { luagc.VerifGCUninstallCollector() }
+
+// Fire runs and consumes the Go finaliser registered for v (a *VerifGCObj,
+// *Table or *UserData); false if v carries none.
+func (c *VerifGCCollector) Fire(v interface{}) bool { return c.c.Fire(v.(luagc.Value)) }
+
+// Has reports whether v currently carries a Go finaliser.
+func (c *VerifGCCollector) Has(v interface{}) bool { return c.c.Has(v) }
+
+// Count is the number of objects carrying a Go finaliser.
+func (c *VerifGCCollector) Count() int { return c.c.Count() }
+
+// DoubleSets counts SetFinalizer calls on objects that already had a
+// finaliser (fatal with the real runtime.SetFinalizer).
+func (c *VerifGCCollector) DoubleSets() int { return c.c.DoubleSets() }
+
+// VerifGCRunPendingFinalizers calls the runtime's runPendingFinalizers (what
+// RunContinuation does before every continuation step of a non-gc thread).
+func VerifGCRunPendingFinalizers(r *Runtime) { r.runPendingFinalizers() }
